@@ -93,7 +93,8 @@ def run_property(pid, tier):
     for grp in cfg.get("kani", []):
         hfile = os.path.join(C.VERIF, grp["src"])
         appends[grp["target"]] = hfile
-        for h in K.parse_harness_file(hfile):
+        for h in K.parse_harness_file(hfile, grp["target"]):
+            h["target"] = grp["target"]
             if pid not in h["props"]:
                 continue
             if h["tier"] == "thorough" and tier != "thorough":
@@ -118,7 +119,8 @@ def run_property(pid, tier):
                     locfn = (c.get("loc", "").split(" in function ")[-1]).split("::")[-1]
                     oid = "%s:%s@%s" % (h["id"], desc[:100], locfn)
                     failed.append({"id": oid, "fn": locfn, "kind": "kani-check", "status": "failed", "backend": "kani/cbmc",
-                                   "where": c.get("loc"), "message": desc, "harness": h, "unit": grp_of(h), "verifier_output": r["raw_tail"][-1500:]})
+                                   "where": c.get("loc"), "message": desc, "harness": h, "unit": grp_of(h), "verifier_output": r["raw_tail"][-1500:],
+                                   "appends": appends, "target": h["target"]})
             elif r["unsat_covers"]:
                 undecided.append("kani harness %s: cover unreachable (vacuous harness): %s" % (h["id"], [c["name"] for c in r["unsat_covers"]]))
             else:
@@ -261,14 +263,34 @@ def report_violations(pid, violations, kani_results):
                 replay = {"kind": "native-test", "unit": unit, "target": w["target"], "src": w["src"], "input": wit.get("input")}
         elif f["backend"].startswith("kani"):
             h = f["harness"]
+            appends = f.get("appends", {})
             try:
                 copy_dir = C.repo_copy(pid)
-                pb = K.concrete_playback(copy_dir, h)
+                key = ("pb", h["fq"])
+                if key not in wit_cache:
+                    wit_cache[key] = K.concrete_playback(copy_dir, h)
+                pbs = wit_cache[key]
+                params, consts = K.body_params(h["file"], h["fn"])
+                for desc, vals in pbs:
+                    if params is None:
+                        break
+                    if desc[:60] != f["message"][:60] and len(pbs) > 1:
+                        continue
+                    dec = K.decode_playback(vals, params, consts)
+                    if dec is None:
+                        continue
+                    lits, js = dec
+                    rep, excerpt, cmd = K.native_replay(pid, appends, f["target"], h, lits)
+                    wlog = excerpt or ""
+                    if rep:
+                        wit = {"fn": f["fn"], "harness": h["id"], "input": js, "observed_native": excerpt}
+                        replay = {"kind": "kani-native", "harness": h, "appends": {k: os.path.relpath(v, C.VERIF) for k, v in appends.items()},
+                                  "target": f["target"], "literals": lits, "cmd": cmd}
+                        break
+                    elif rep is False:
+                        wlog = "Kani counterexample %s did not fail natively (stubbed error path or cfg difference): %s" % (json.dumps(js)[:300], excerpt)
             except Exception as e:
-                pb = None
-            if pb:
-                wit = {"fn": f["fn"], "concrete_playback_test": pb}
-                replay = {"kind": "kani-playback", "harness": h["fn"], "harness_file": os.path.relpath(h["file"], C.VERIF), "test": pb}
+                wlog = "playback failed: %r" % e
         name = re.sub(r"[^A-Za-z0-9_.-]+", "_", f["id"])[:120]
         d = os.path.join(C.OUT, "replays", pid)
         os.makedirs(d, exist_ok=True)
@@ -276,7 +298,7 @@ def report_violations(pid, violations, kani_results):
         doc = {
             "property": pid, "obligation": f["id"], "function": f["fn"], "repo_location": f.get("where"), "backend": f["backend"],
             "verifier_message": f.get("message"), "verifier_output": f.get("verifier_output", ""),
-            "witness": wit, "replay": replay,
+            "witness": wit, "replay": replay if replay is None else json.loads(json.dumps(replay, default=str)),
             "replay_cmd": "python3 /verif/run.py --replay %s" % path,
             "no_failing_input_found": wit is None,
             "witness_search_log_tail": wlog[-1500:] if wit is None else "",
@@ -311,10 +333,16 @@ def do_replay(path):
             print(log)
             return 2
         return 1 if wits else 0
-    if rp["kind"] == "kani-playback":
-        print("Kani concrete playback test (values of kani::any() in call order):")
-        print(rp["test"])
-        return 1
+    if rp["kind"] == "kani-native":
+        appends = {k: os.path.join(C.VERIF, v) for k, v in rp["appends"].items()}
+        rep, excerpt, cmd = K.native_replay(pid + "-replay", appends, rp["target"], rp["harness"], rp["literals"])
+        print("replay command:", cmd)
+        print("harness body  : h_%s(%s)" % (rp["harness"]["fn"], ", ".join(x[:80] for x in rp["literals"])))
+        print(excerpt)
+        if rep is None:
+            return 2
+        print("REPRODUCED" if rep else "not reproduced (passes on this tree)")
+        return 1 if rep else 0
     return 2
 
 
@@ -329,7 +357,7 @@ def do_setup():
                         cwd=d, env=C.offline_env(), capture_output=True, text=True)
     print("kani warm-up:", "ok" if "VERIFICATION:- SUCCESSFUL" in r1.stdout else "FAILED\n" + (r1.stdout + r1.stderr)[-2000:])
     r2 = subprocess.run(["cargo", "test", "--offline", "--lib", "--no-run"], cwd=d,
-                        env=C.offline_env({"CARGO_TARGET_DIR": os.path.join(C.CACHE, "test-target")}), capture_output=True, text=True)
+                        env=C.test_env(), capture_output=True, text=True)
     print("cargo test warm-up:", "ok" if r2.returncode == 0 else "FAILED\n" + r2.stderr[-2000:])
     r3 = subprocess.run(["verus", "--version"], capture_output=True, text=True)
     print("verus:", r3.stdout.split("\n")[1].strip() if r3.returncode == 0 else "MISSING")
